@@ -75,6 +75,10 @@ func main() {
 		}
 		return
 	}
+	if *dump == "codeccalls" {
+		dumpCodecCalls(P)
+		return
+	}
 	if *dump == "leafterms" {
 		dumpLeafTerms(P)
 		return
